@@ -252,6 +252,14 @@ def build_lean():
         if rc2 != 0:
             res["ok"] = False
             res["broken"].append(dict(file="PFV/Audit.lean", line=0, decl="audit", msg=txt2[-400:]))
+        # independent re-check of the compiled property theorems by the toolchain's `leanchecker` (replays the
+        # declarations of the module through the kernel); the thorough tier re-checks all imported modules as well
+        rc3, out3, err3 = sh(["lake", "env", "leanchecker"] + (["--fresh"] if CURRENT_TIER[0] == "thorough" else []) + ["PFV.Properties"],
+                             cwd=LEAN, timeout=3000)
+        res["leanchecker"] = "ok" if rc3 == 0 else (out3 + err3)[-300:]
+        if rc3 != 0:
+            res["ok"] = False
+            res["broken"].append(dict(file="PFV/Properties.lean", line=0, decl="leanchecker", msg=res["leanchecker"]))
         for t, ax in res["axioms"].items():
             bad = [a for a in ax if a not in ALLOWED_AXIOMS]
             if bad:
@@ -293,6 +301,7 @@ def setup():
 
 
 # --------------------------------------------------------------------------- streams
+CURRENT_TIER = ["quick"]
 STREAM_TIMEOUT = [900]      # seconds for one harness / driver invocation (raised for the thorough tier)
 
 
@@ -1010,7 +1019,7 @@ def check_property(prop, tier, seed):
     rejected = [t for t, ax in thms.items() if "sorryAx" in ax]
     cov["obligations"] = len(thms) + (len(lean["broken"]) if not lean.get("attributed") else 0)
     cov["discharged"] = len(thms) - len(rejected)
-    cov["checker_cmd"] = "cd /verif/lean && lake build PFV pfv-driver && lake env lean PFV/Audit.lean"
+    cov["checker_cmd"] = "cd /verif/lean && lake build PFV pfv-driver && lake env lean PFV/Audit.lean && lake env leanchecker PFV.Properties"
     cov["theorems"] = sorted(thms)
     cov["axioms_used"] = sorted({a for ax in thms.values() for a in ax})
     if lean.get("note"):
@@ -1169,7 +1178,7 @@ def obligations(cov, lean, ns):
     thms = {t: ax for t, ax in lean["axioms"].items() if any(t.startswith("PFV.%s." % n) for n in ns)}
     cov["obligations"] = len(thms) + (len(lean["broken"]) if not lean.get("attributed") else 0)
     cov["discharged"] = len(thms) - len([t for t, ax in thms.items() if "sorryAx" in ax])
-    cov["checker_cmd"] = "cd /verif/lean && lake build PFV pfv-driver && lake env lean PFV/Audit.lean"
+    cov["checker_cmd"] = "cd /verif/lean && lake build PFV pfv-driver && lake env lean PFV/Audit.lean && lake env leanchecker PFV.Properties"
     cov["theorems"] = sorted(thms)
     cov["axioms_used"] = sorted({a for ax in thms.values() for a in ax})
 
@@ -1635,6 +1644,7 @@ def main():
     ap.add_argument("--replay")
     a = ap.parse_args()
     seed = int(os.environ.get("VERIF_SEED", "1") or 1)
+    CURRENT_TIER[0] = a.tier if a.tier in ("quick", "thorough") else "quick"
     if a.tier == "thorough":
         STREAM_TIMEOUT[0] = 7200
     if a.replay:
